@@ -365,6 +365,12 @@ add("C18", "X-pole-neighbour-slots", "fixed",
     also=["power:unpowered:substation"])  # the same layout also shows the open finding F-pole-coverage
 
 
+add("C01", "X-merged-constant-vanishes", "fixed",
+    "Signal v1 = (1 | in1.type) + in1; read in1: the projected 1 joins in1 by a wire merge and was never given a combinator",
+    case01([S("in1", "signal-A", 0), Decl("Signal", "v1", Bin("+", Paren(Proj(Num(1), TypeOf("in1"))), Ref("in1")))],
+           [{"in1": 0}, {"in1": 41}]), commit="9a62408")
+
+
 def main():
     import importlib
 
